@@ -65,5 +65,36 @@ def run(ck: Check):
         ex.meta += ex2.meta
     ex.lines, ex.impl, ex.meta = ex.lines[-600:], ex.impl[-600:], ex.meta[-600:]
     ex.diff()
+    # the SAME Lithium / strategy / testcase objects for consecutive runs under ONE deterministic test: what an
+    # earlier run tried (and accepted) must not be skipped by a later one
+    from runner import impl_session
+    fam2 = [lambda c: b"a\n" in c, lambda c: c.count(b"\n") % 2 == 1 or b"k\n" in c,
+            lambda c: hashlib.sha256(c).digest()[0] % 3 != 0]
+    for i in range(80 if quick else 800):
+        f = fam2[i % len(fam2)]
+        steps = []
+        for _ in range(r.choice([2, 3])):
+            k = r.randint(2, 6)
+            parts = [r.choice([b"a\n", b"b\n", b"c\n", b"d\n", b"k\n"]) for _ in range(k)]
+            if i % len(fam2) == 0 and b"a\n" not in parts:
+                parts[r.randrange(k)] = b"a\n"
+            data = b"".join(parts)
+            if not f(data):
+                continue
+            steps.append({"strategy": "minimize", "cfg": {"repeat": r.choice(["last", "always"])}, "atom": "line",
+                          "file0": data, "verdict": lambda kk, d, f=f: "Y" if f(d) else "N"})
+        if len(steps) < 2:
+            continue
+        steps[1]["cfg"] = steps[0]["cfg"]    # one strategy object = one configuration
+        for st in steps[2:]:
+            st["cfg"] = steps[0]["cfg"]
+        runs = impl_session(steps)
+        for step, run_ in zip(steps, runs):
+            ck.count("session")
+            ck.nontrivial(("session", i, step["file0"]))
+            ctx = {"strategy": "minimize", "cfg": step["cfg"], "tc": run_.loaded, "file0": step["file0"], "verdicts": "",
+                   "clock": [], "atom": "line", "exc_class": "TestRaised", "load": True,
+                   "session": [s_["file0"].hex() for s_ in steps], "note": "same objects for all runs; test = family " + str(i % len(fam2))}
+            make_oracle_c03(lambda ctx, run, f=f: f)(ck, ctx, run_)
     return ck.finish(level="proof", rule=RULE, assumptions=[
         "atoms are non-empty (C06) so every candidate is strictly shorter than its basis"])
